@@ -4,6 +4,16 @@
 // ------------------------------------------------------------------------------------------------
 // numbers s * b^e compared at a common exponent G below both
 
+/// b^0, b^1, b^2 spelled out (ipow is recursive: unfolding it inside a large proof is unreliable)
+pub proof fn lemma_ipow_012(b: int)
+    ensures ipow(b, 0) == 1, ipow(b, 1) == b, ipow(b, 2) == b * b
+{
+    reveal_with_fuel(ipow, 3);
+    assert(ipow(b, 0) == 1);
+    assert(ipow(b, 1) == b * ipow(b, 0));
+    assert(ipow(b, 2) == b * ipow(b, 1));
+    assert(b * 1 == b);
+}
 /// moving the reference exponent down from G to H multiplies by b^(G-H)
 pub proof fn lemma_va_shift(b: int, s: int, e: int, G: int, H: int)
     requires b >= 1, H <= G <= e
@@ -166,6 +176,33 @@ pub proof fn lemma_f_grid(b: int, sig: int, exp: int, p: int)
     lemma_ipow_pos(b, p as nat);
 }
 
+/// two descriptions (a, c, fa, fc) and (a2, c2, ..) of the SAME set of rationals X/D by eb_in have the same bounds
+/// (a point strictly between two different candidate ends tells them apart)
+pub proof fn lemma_eb_in_unique(a: int, c: int, fa: bool, fc: bool, a2: int, c2: int, fa2: bool, fc2: bool)
+    requires 0 <= a, 0 <= c, 0 <= a2, 0 <= c2,
+        eb_in(-(a + a2), 4, a, c, fa, fc) == eb_in(-(a + a2), 4, a2, c2, fa2, fc2),
+        eb_in(c + c2, 4, a, c, fa, fc) == eb_in(c + c2, 4, a2, c2, fa2, fc2),
+    ensures a == a2, c == c2
+{
+    if a < a2 {
+        let X = -(a + a2);
+        assert(-(a * 4) > 2 * X && -(a2 * 4) < 2 * X && 2 * X < c * 4 && 2 * X < c2 * 4);
+        assert(!eb_in(X, 4, a, c, fa, fc) && eb_in(X, 4, a2, c2, fa2, fc2));
+    } else if a2 < a {
+        let X = -(a + a2);
+        assert(-(a2 * 4) > 2 * X && -(a * 4) < 2 * X && 2 * X < c * 4 && 2 * X < c2 * 4);
+        assert(eb_in(X, 4, a, c, fa, fc) && !eb_in(X, 4, a2, c2, fa2, fc2));
+    }
+    if c < c2 {
+        let X = c + c2;
+        assert(2 * X > c * 4 && 2 * X < c2 * 4 && -(a * 4) < 2 * X && -(a2 * 4) < 2 * X);
+        assert(!eb_in(X, 4, a, c, fa, fc) && eb_in(X, 4, a2, c2, fa2, fc2));
+    } else if c2 < c {
+        let X = c + c2;
+        assert(2 * X > c2 * 4 && 2 * X < c * 4 && -(a * 4) < 2 * X && -(a2 * 4) < 2 * X);
+        assert(eb_in(X, 4, a, c, fa, fc) && !eb_in(X, 4, a2, c2, fa2, fc2));
+    }
+}
 /// the two bounds of the rounding interval are determined by the set they describe: they are the table values
 pub proof fn lemma_eb_unique(md: Mode, m: int, g: int, l2: int, r2: int, il: bool, ir: bool)
     requires m != 0, g >= 1, 0 <= l2, 0 <= r2, eb_exact(md, m, g, l2, r2, il, ir)
@@ -174,19 +211,13 @@ pub proof fn lemma_eb_unique(md: Mode, m: int, g: int, l2: int, r2: int, il: boo
     let t = eb_table(md, m, g);
     lemma_eb_table(md, m, g);
     assert(t.0 >= 0 && t.1 >= 0);
-    if l2 != t.0 {
-        // the point -(l2 + t0)/4 lies strictly between the two candidate left ends
-        let X = -(l2 + t.0);
-        assert(rounds_on_grid(md, m, g, X, 4) == eb_in(X, 4, l2, r2, il, ir));
-        assert(rounds_on_grid(md, m, g, X, 4) == eb_in(X, 4, t.0, t.1, t.2, t.3));
-        assert(false);
-    }
-    if r2 != t.1 {
-        let X = r2 + t.1;
-        assert(rounds_on_grid(md, m, g, X, 4) == eb_in(X, 4, l2, r2, il, ir));
-        assert(rounds_on_grid(md, m, g, X, 4) == eb_in(X, 4, t.0, t.1, t.2, t.3));
-        assert(false);
-    }
+    let X1 = -(l2 + t.0);
+    let X2 = r2 + t.1;
+    assert(rounds_on_grid(md, m, g, X1, 4) == eb_in(X1, 4, l2, r2, il, ir));
+    assert(rounds_on_grid(md, m, g, X1, 4) == eb_in(X1, 4, t.0, t.1, t.2, t.3));
+    assert(rounds_on_grid(md, m, g, X2, 4) == eb_in(X2, 4, l2, r2, il, ir));
+    assert(rounds_on_grid(md, m, g, X2, 4) == eb_in(X2, 4, t.0, t.1, t.2, t.3));
+    lemma_eb_in_unique(l2, r2, il, ir, t.0, t.1, t.2, t.3);
 }
 
 /// a one-digit number
@@ -196,8 +227,7 @@ pub proof fn lemma_one_digit(b: int, v: int)
 {
     broadcast use ax_ndigits;
     if v != 0 {
-        reveal_with_fuel(ipow, 2);
-        assert(ipow(b, 0) == 1 && ipow(b, 1) == b);
+        lemma_ipow_012(b);
         lemma_nd_unique(b, v, 1);
     }
 }
@@ -207,8 +237,7 @@ pub proof fn lemma_bound_exp(b: int, bsig: int, bexp: int, eu: int, k: int, g: i
     requires b >= 2, 0 <= bsig < b, 0 <= k <= 2 * g, g == 1 || g == b, half_units(b, bsig, bexp, eu, k)
     ensures (bsig == 0) == (k == 0), bsig != 0 ==> eu - 1 <= bexp <= eu + 1 && (bexp == eu + 1 ==> g == b)
 {
-    reveal_with_fuel(ipow, 3);
-    assert(ipow(b, 2) == b * b);
+    lemma_ipow_012(b);
     let bb = b * b;
     assert(bb >= 2 * b) by (nonlinear_arith) requires bb == b * b, b >= 2;
     if bexp <= eu {
@@ -257,8 +286,7 @@ pub proof fn lemma_ep_fdiff_even(b: int, sig: int, exp: int, eu: int, mg: int, b
     let G = eu - 1;
     let s2 = if minus { bsig } else { -bsig };
     let S = mg + (if minus { -h } else { h });
-    reveal_with_fuel(ipow, 2);
-    assert(ipow(b, 1) == b);
+    lemma_ipow_012(b);
     lemma_va_shift(b, sig, exp, eu, G);
     lemma_sv_at(b, 2 * bsig, bexp, 2 * h, eu, G);
     let y = ipow(b, (bexp - G) as nat);
@@ -279,8 +307,7 @@ pub proof fn lemma_ep_fdiff_odd(b: int, sig: int, exp: int, eu: int, mg: int, bs
     let hb = b / 2;
     let K = 2 * mg + (if minus { -k } else { k });
     let S = K * hb;
-    reveal_with_fuel(ipow, 2);
-    assert(ipow(b, 1) == b && ipow(b, 0) == 1);
+    lemma_ipow_012(b);
     lemma_va_shift(b, sig, exp, eu, G);
     lemma_sv_at(b, 2 * bsig, bexp, k, eu, G);
     let y = ipow(b, (bexp - G) as nat);
@@ -349,7 +376,7 @@ pub proof fn lemma_endpoint(md: Mode, b: int, sig: int, exp: int, p: int, l2: in
     assert(ipow(b, (p + 1) as nat) == b * bp);
     lemma_ipow_pos(b, p as nat);
     let s2 = if minus { bsig } else { -bsig };
-    assert(ipow(b, 0) == 1);
+    lemma_ipow_012(b);
     assert((m > 0 ==> mg >= 1) && (m < 0 ==> mg <= -1)) by (nonlinear_arith) requires mg == m * g, g >= 1;
     let fe = ipow(b, (exp - eu) as nat);
     if k == 0 {
@@ -384,8 +411,6 @@ pub proof fn lemma_endpoint(md: Mode, b: int, sig: int, exp: int, p: int, l2: in
                 }
             }
             lemma_ep_bound_odd(b, bp, K, w.0);
-            reveal_with_fuel(ipow, 2);
-            assert(ipow(b, 1) == b);
         }
     }
 }
@@ -423,28 +448,26 @@ pub proof fn lemma_side(n: int, d: int, y: int, s: int, KP: int, Pd: int, W: int
     lemma_sign_prod(A, c);
 }
 
-/// the fraction y/s rounds to f  <=>  it lies between the end points left = ln/ld (2 left == (2mg - l2) b^eu) and
+/// the fraction y/s rounds to f = (m g) b^eu  <=>  it lies between the end points left = ln/ld (2 left == (2mg - l2) b^eu) and
 /// right = un/ud (2 right == (2mg + r2) b^eu), an end point counting iff its flag is set
-pub proof fn lemma_member(md: Mode, b: int, sig: int, exp: int, p: int, l2: int, r2: int, il: bool, ir: bool,
-                          ln: int, ld: int, un: int, ud: int, yn: int, yd: int)
+pub proof fn lemma_member_grid(md: Mode, b: int, m: int, g: int, eu: int, l2: int, r2: int, il: bool, ir: bool,
+                               ln: int, ld: int, un: int, ud: int, yn: int, yd: int)
     requires
-        eb_domain(b, sig, exp, p), ld >= 1, ud >= 1, yd >= 1,
-        eb_exact(md, sf_m(b, sig, p), eb_g(b, sig), l2, r2, il, ir),
-        fv(b, sf_K(b, sig, p, true, l2), sf_eu(b, sig, exp, p), 2 * ln, ld),
-        fv(b, sf_K(b, sig, p, false, r2), sf_eu(b, sig, exp, p), 2 * un, ud),
-    ensures in_round_set(md, b, sig, exp, p, yn, yd) == in_flag(ln, ld, un, ud, il, ir, yn, yd)
+        b >= 2, ld >= 1, ud >= 1, yd >= 1,
+        eb_exact(md, m, g, l2, r2, il, ir),
+        fv(b, 2 * (m * g) - l2, eu, 2 * ln, ld),
+        fv(b, 2 * (m * g) + r2, eu, 2 * un, ud),
+    ensures in_round_grid(md, b, m, g, eu, yn, yd) == in_flag(ln, ld, un, ud, il, ir, yn, yd)
 {
-    let (eu, m, g) = (sf_eu(b, sig, exp, p), sf_m(b, sig, p), eb_g(b, sig));
     let mg = m * g;
-    let (KL, KR) = (sf_K(b, sig, p, true, l2), sf_K(b, sig, p, false, r2));
-    assert(KL == 2 * mg - l2 && KR == 2 * mg + r2);
+    let (KL, KR) = (2 * mg - l2, 2 * mg + r2);
     if eu >= 0 {
         let P = ipow(b, eu as nat);
         lemma_ipow_pos(b, eu as nat);
         let X = yn - (mg * P) * yd;
         let D = yd * P;
         assert(D > 0) by (nonlinear_arith) requires D == yd * P, yd >= 1, P >= 1;
-        assert(in_round_set(md, b, sig, exp, p, yn, yd) == rounds_on_grid(md, m, g, X, D));
+        assert(in_round_grid(md, b, m, g, eu, yn, yd) == rounds_on_grid(md, m, g, X, D));
         assert(rounds_on_grid(md, m, g, X, D) == eb_in(X, D, l2, r2, il, ir));
         let (KLP, KRP) = (KL * P, KR * P);
         let WL = (2 * yn) * 1 - KLP * yd;
@@ -461,7 +484,7 @@ pub proof fn lemma_member(md: Mode, b: int, sig: int, exp: int, p: int, l2: int,
         lemma_ipow_pos(b, (-eu) as nat);
         let X = yn * P - mg * yd;
         let D = yd;
-        assert(in_round_set(md, b, sig, exp, p, yn, yd) == rounds_on_grid(md, m, g, X, D));
+        assert(in_round_grid(md, b, m, g, eu, yn, yd) == rounds_on_grid(md, m, g, X, D));
         assert(rounds_on_grid(md, m, g, X, D) == eb_in(X, D, l2, r2, il, ir));
         let WL = (2 * yn) * P - KL * yd;
         let WR = (2 * yn) * P - KR * yd;
@@ -472,6 +495,18 @@ pub proof fn lemma_member(md: Mode, b: int, sig: int, exp: int, p: int, l2: int,
         lemma_side(ln, ld, yn, yd, KL, P, WL);
         lemma_side(un, ud, yn, yd, KR, P, WR);
     }
+}
+/// the same for a float sig * b^exp of precision p
+pub proof fn lemma_member(md: Mode, b: int, sig: int, exp: int, p: int, l2: int, r2: int, il: bool, ir: bool,
+                          ln: int, ld: int, un: int, ud: int, yn: int, yd: int)
+    requires
+        eb_domain(b, sig, exp, p), ld >= 1, ud >= 1, yd >= 1,
+        eb_exact(md, sf_m(b, sig, p), eb_g(b, sig), l2, r2, il, ir),
+        fv(b, sf_K(b, sig, p, true, l2), sf_eu(b, sig, exp, p), 2 * ln, ld),
+        fv(b, sf_K(b, sig, p, false, r2), sf_eu(b, sig, exp, p), 2 * un, ud),
+    ensures in_round_set(md, b, sig, exp, p, yn, yd) == in_flag(ln, ld, un, ud, il, ir, yn, yd)
+{
+    lemma_member_grid(md, b, sf_m(b, sig, p), eb_g(b, sig), sf_eu(b, sig, exp, p), l2, r2, il, ir, ln, ld, un, ud, yn, yd);
 }
 
 /// left < right: the rounding interval of a float of limited precision is not a single point
